@@ -40,7 +40,7 @@ RULE = ("Histories of 20-60 calls drawn from encode / decode / repair_dna / set_
         "module globals unchanged, numpy RNG state unchanged except by the two randomised calls, no audit events; verbose=True "
         "gives the same result or the same exception type; a fresh interpreter gives the same result for the recorded "
         "arguments (and seed). Non-trivial: the history holds >= 3 distinct operations; distinct = hash of the history."
-        ' Also: every call repeated after its returned object was scrambled in place, in-place edits of the shared accessor / latter map / mask / table by the harness between calls, objects handed back by the library adopted as shared arguments, removal bursts and strip runs (arc removal until it raises), parameters drawn from small pools, histories at order 6 on the cheap operations; the write-protected and verbose twins run as a pass of their own after the history.')
+        ' Also: the fresh interpreter rebuilds the latter map in another insertion order (an equal dict); a trim -> convert -> remove pipeline whose first argument must stay unchanged; a few ordinary calls after every strip run; every call repeated after its returned object was scrambled in place, in-place edits of the shared accessor / latter map / mask / table by the harness between calls, objects handed back by the library adopted as shared arguments, removal bursts and strip runs (arc removal until it raises), parameters drawn from small pools, histories at order 6 on the cheap operations; the write-protected and verbose twins run as a pass of their own after the history.')
 
 NUC = "ACGT"
 STEP_BUDGET = 300000  # loop iterations per call (deterministic logical clock, same in the fresh interpreter)
@@ -49,7 +49,7 @@ STEP_BUDGET = 300000  # loop iterations per call (deterministic logical clock, s
 # ---- shared state <-> JSON ---------------------------------------------------------------------------------------------
 
 class State:
-    def __init__(self, snap):
+    def __init__(self, snap, permute=False):
         dsw = import_dsw()
         self.k = snap["k"]
         self.start = snap["start"]
@@ -57,7 +57,11 @@ class State:
         self.msg = np.array(snap["msg"], dtype=int)
         self.table = np.array(snap["table"], dtype=int)
         self.mask = G.hex_to_mask(self.k, snap["mask"], dtype=bool)
-        self.lm = {int(a): [int(x) for x in b] for a, b in snap["lm"]}
+        items = [(int(a), [int(x) for x in b]) for a, b in snap["lm"]]
+        if permute:
+            # an *equal* dict built in another insertion order (dict equality ignores it)
+            random.Random(len(items) * 7919 + sum(a for a, _ in items)).shuffle(items)
+        self.lm = dict(items)
         self.cfg = snap["cfg"]
         self.filt = dsw.LocalBioFilter(observed_length=self.k, max_homopolymer_runs=self.cfg["run"], gc_range=self.cfg["gc"],
                                        undesired_motifs=self.cfg["motifs"])
@@ -87,7 +91,7 @@ def canon(x):
     if isinstance(x, (list, tuple)):
         return [type(x).__name__[0]] + [canon(y) for y in x]
     if isinstance(x, dict):
-        return ["d"] + [[canon(a), canon(b)] for a, b in x.items()]
+        return ["d"] + sorted([[canon(a), canon(b)] for a, b in x.items()], key=jdump)
     if isinstance(x, (str, int, type(None))):
         return x
     return ["obj", type(x).__name__]
@@ -265,6 +269,16 @@ def _(dsw, S, p, v):
     return [r[0], r[1], r[2], r[3]]
 
 
+@op("trim_then_remove", verbose=True)
+def _(dsw, S, p, v):
+    # a caller's pipeline: trim the shared map, convert, remove an arc from the *trimmed* map.  The shared map is an
+    # argument of the first call only and must come out of the whole pipeline unchanged.
+    trimmed = dsw.remove_useless(S.lm, p["t"], verbose=v)
+    acc = dsw.latter_map_to_accessor(trimmed, S.k)
+    r = dsw.remove_nasty_arc(acc, trimmed, p["it"], p["ins"], p["dele"], verbose=v)
+    return [r[0], r[1], r[2], r[3]]
+
+
 # "adopt" operations: the object the library hands back becomes the shared argument of later calls (harness-side
 # assignment).  If the library keeps a reference to what it returned (a cache, a reused buffer), a later in-place arc
 # removal or any later call on that object shows up as a difference from the fresh interpreter.
@@ -296,7 +310,7 @@ def fresh_main(path):
     recs = json.load(open(path))
     out = []
     for rec in recs:
-        S = State(rec["snap"])
+        S = State(rec["snap"], permute=True)
         out.append(run_op(dsw, S, rec["op"], rec["p"]))
     sys.stdout.write("\n@@RESULT@@" + jdump(out))
 
@@ -353,7 +367,7 @@ WEIGHTS = [("encode", 6), ("decode", 5), ("repair_dna", 4), ("set_vt", 2), ("bit
            ("create_random_shuffles", 2), ("accessor_to_latter_map", 2), ("latter_map_to_accessor", 2),
            ("accessor_to_adjacency_matrix", 1), ("adjacency_matrix_to_accessor", 1), ("obtain_vertices", 1),
            ("obtain_leaf_vertices", 4), ("obtain_formers", 1), ("obtain_latters", 1), ("get_complete_accessor", 3), ("path_matching", 2), ("remove_useless", 2),
-           ("filter_valid", 2), ("remove_nasty_arc", 8)]
+           ("filter_valid", 2), ("remove_nasty_arc", 8), ("trim_then_remove", 3)]
 
 
 def _params(rng, name, S):
@@ -403,6 +417,8 @@ def _params(rng, name, S):
         return dict(t=rng.choice([1, 2, 3]))
     if name == "filter_valid":
         return dict(last=rng.random() < 0.5)
+    if name == "trim_then_remove":
+        return dict(t=rng.choice([1, 1, 2]), it=rng.randint(0, 3), ins=rng.random() < 0.5, dele=rng.random() < 0.5)
     if name == "remove_nasty_arc":
         fixed = getattr(S, "strip_flags", None)
         if fixed is not None:
@@ -438,7 +454,7 @@ def check_history(ctx, case):
     names = [n for n, w in WEIGHTS for _ in range(w)]
     recs, live_results, seen_ops = [], [], set()
     where0 = "history seed=%d" % case["seed"]
-    burst = 0
+    burst, tail = 0, None
     large = bool(case.get("large"))
     if large:
         names = [n for n in names if n in LARGE_OPS]
@@ -488,9 +504,16 @@ def check_history(ctx, case):
                 rng.shuffle(row)
                 S.table[r] = row
             ctx.cls("shared objects edited in place by the harness")
-        if case.get("strip") and step >= 2:
+        if case.get("strip") and step >= 2 and tail is None:
             if live_results and isinstance(live_results[-1], dict) and "exc" in live_results[-1] and recs[-1]["op"] == "remove_nasty_arc":
+                tail = 6           # a few ordinary calls on what the strip run left behind
+        if tail is not None:
+            if tail == 0:
                 break
+            tail -= 1
+            name = rng.choice([n for n in names if n not in ("remove_nasty_arc", "trim_then_remove")])
+            ctx.cls("calls after a strip run")
+        elif case.get("strip") and step >= 2:
             name = "remove_nasty_arc"
         elif burst > 0:
             burst -= 1
@@ -639,7 +662,7 @@ def floors(agg, tier):
     if c.get("in-place removal followed by further calls", 0) < 100:
         out.append("in-place removals: %d < 100" % c.get("in-place removal followed by further calls", 0))
     for name, need in (("call repeated after its result was scrambled", 2000), ("shared objects edited in place by the harness", 300),
-                       ("histories at order 6", 8), ("histories on a Fortran-ordered shared accessor", 30), ("strip histories (arc removal until it raises)", 30)):
+                       ("histories at order 6", 8), ("histories on a Fortran-ordered shared accessor", 30), ("strip histories (arc removal until it raises)", 30), ("calls after a strip run", 60)):
         if c.get(name, 0) < need:
             out.append("%s observed %d < %d" % (name, c.get(name, 0), need))
     if c.get("adopted a returned accessor as the shared accessor", 0) < 30:
